@@ -32,8 +32,9 @@ Proof.
   split; [reflexivity|]. destruct C as [K C1 C2 C3 C4 C5 C6 C7].
   unfold tcp_close. rewrite C1. unfold tcp_set_state.
   split; [|sproj; auto].
-  constructor; unfold tcp_window_start, tcp_scaled_window in *; sproj; try assumption; try reflexivity.
-  destruct K. constructor; sproj; assumption.
+  constructor; unfold tcp_window_start in *; sproj; try assumption; try reflexivity.
+  - destruct K. constructor; sproj; assumption.
+  - unfold tcp_window_to_update. sproj. destruct (s_syn_unacked_in_fin_wait s); reflexivity.
 Qed.
 
 Section Close.
